@@ -193,6 +193,26 @@ fn check_pu(c: &PuCase, p: &mut Probe) -> Check {
         let r = guarded(|| pu.depuncture(&yy)).map_err(|e| Fail::new("panic", format!("depuncture panicked on an indivisible length: {e}")))?;
         ensure!(r.is_err(), "indivisible-accepted", "depuncture accepted {} values with {t} kept blocks", y.len() + c.extra);
     }
+    // every length below the pattern length: 0 is divisible (empty result), all others are not
+    for l in 0..pat.len() {
+        let xx: Vec<i64> = (0..l as i64).map(|v| v + 1).collect();
+        let r = guarded(|| with_layout(&xx, -1, lay, |v| pu.puncture(&v))).map_err(|e| Fail::new("panic", format!("puncture panicked on a codeword of length {l} (pattern length {}): {e}", pat.len())))?;
+        if l == 0 {
+            ensure!(r.as_ref().is_ok_and(|y| y.is_empty()), "empty-codeword", "puncture of the empty codeword gives {r:?}");
+        } else {
+            ensure!(r.is_err(), "indivisible-accepted", "puncture accepted a codeword of length {l}, shorter than the pattern ({} blocks): {r:?}", pat.len());
+        }
+    }
+    for l in 0..t {
+        let yy = vec![0.25f64; l];
+        let r = guarded(|| pu.depuncture(&yy)).map_err(|e| Fail::new("panic", format!("depuncture panicked on {l} values ({t} kept blocks): {e}")))?;
+        if l == 0 {
+            ensure!(r.as_ref().is_ok_and(|y| y.is_empty()), "empty-codeword", "depuncture of no values gives {r:?}");
+        } else {
+            ensure!(r.is_err(), "indivisible-accepted", "depuncture accepted {l} values with {t} kept blocks: {r:?}");
+        }
+    }
+    p.class_if(pat.len() >= 2, "lengths-below-pattern-length");
     p.class_if(t < pat.len(), "something-removed");
     if t < pat.len() && pat.len() >= 2 {
         p.nontrivial();
@@ -221,7 +241,7 @@ pub fn property() -> Property {
             }),
             Box::new(Sub {
                 name: "puncturer",
-                rule: "boolean patterns of length 1..=8 with at least one true (by construction), block size 1..=6, all six input layouts (ArrayBase views: reversed, strided, offset), 40 % of the cases on an object that first processed a codeword of another block size: puncture keeps exactly the true blocks in order; depuncture puts them back with neutral values (i64 0, f64 exactly +0.0) in the removed blocks; rate = pattern length / kept blocks; lengths not divisible by the pattern length (puncture) or by the number of kept blocks (depuncture) give Err, never a panic or a shortened vector; non-trivial = something removed",
+                rule: "boolean patterns of length 1..=8 with at least one true (by construction), block size 1..=6, all six input layouts (ArrayBase views: reversed, strided, offset), 40 % of the cases on an object that first processed a codeword of another block size: puncture keeps exactly the true blocks in order; depuncture puts them back with neutral values (i64 0, f64 exactly +0.0) in the removed blocks; rate = pattern length / kept blocks; lengths not divisible by the pattern length (puncture) or by the number of kept blocks (depuncture) give Err, never a panic or a shortened vector, including every length below the pattern length / the number of kept blocks (length 0 gives an empty result); non-trivial = something removed",
                 cases: |t| t.pick(1_000_000, 30_000_000),
                 strategy: pu_strategy,
                 check: check_pu,
